@@ -25,6 +25,9 @@ EXTENDS Naturals, Sequences, FiniteSets, TLC
 CONSTANTS Order,        \* the input pages in the order the tool processes them (sorted image file names)
           Kinds,        \* requested output kinds
           NLines,       \* line crops per page
+          LineIds,      \* the ids of the text lines of a page, as token sequences (<<"1">>, <<"2">> ... or <<"r", "001", "-", "l", "001">> ...):
+                        \* the crop of line l of page p is the file <p>-<id of l>.jpg.  Line ids are unique within a page only, every
+                        \* page of a batch has the same ones
           MaxCrashes,
           LegacyAlto, LegacyStem, LegacyOrder, LegacyDiv
 
@@ -36,7 +39,7 @@ ExtTokens == {".xml", ".jpg", ".logits"}
 
 \* files of kind k written for page p (a file is <<kind = folder, name>>)
 One(k, p) == IF k \notin Kinds THEN <<>>
-             ELSE IF k = "lines" THEN [l \in 1..NLines |-> <<k, p \o <<"-", ToString(l), ".jpg">> >>]
+             ELSE IF k = "lines" THEN [l \in 1..NLines |-> <<k, p \o <<"-">> \o LineIds[l] \o <<".jpg">> >>]
              ELSE << <<k, p \o <<Ext(k)>> >> >>
 \* ... in the order Computator.__call__ writes them
 Writes(p) == IF LegacyOrder
@@ -46,6 +49,7 @@ FilesOf(p) == {Writes(p)[i] : i \in 1..Len(Writes(p))}
 
 ASSUME /\ Kinds \subseteq AllKinds /\ Kinds # {}
        /\ NLines \in Nat /\ MaxCrashes \in Nat
+       /\ Len(LineIds) = NLines /\ \A l, m \in 1..NLines : l # m => LineIds[l] # LineIds[m]
        /\ \A p \in Pages : Len(Writes(p)) >= 1
        /\ Cardinality(Pages) = Len(Order)
        \* input precondition: two pages never write the same file
